@@ -1053,7 +1053,10 @@ def wr1(F, R):
             okn = e3 is not None and e3["$written"] == (rs["$a"] if rs else None)
             if okn:
                 tot = e3["$total"]
-                okn = tmatch(tot, ("call", "min", [("any", ("call", "len"), ("un", "PtrMetadata", "_")), "_"])) is not None and ("MAX_FILE_SIZE" in tstr(tot) or has_sub(tot, lambda q: q[:2] == ("c", 0xFFFFFFFF))) and "current_offset" in tstr(tot)
+                # min(buffer.len(), room) either way round
+                tot_args = min_args(tot)
+                is_len_ = lambda x: tmatch(strip_refs(x), ("call", "len")) is not None or tmatch(strip_refs(x), ("un", "PtrMetadata", "_")) is not None
+                okn = len(tot_args) == 2 and sum(1 for x in tot_args if is_len_(x)) == 1 and ("MAX_FILE_SIZE" in tstr(tot) or has_sub(tot, lambda q: q[:2] == ("c", 0xFFFFFFFF))) and "current_offset" in tstr(tot)
         R.require(okn, fn, "to_copy", "to_copy must be min(block_avail, min(buffer.len(), MAX_FILE_SIZE - current_offset) - written); got %s" % (tstr(tc)[:220] if tc else None), fn.loc(b))
         # written += to_copy
         wv = strip_refs(rs["$a"]) if rs else None
